@@ -1404,16 +1404,17 @@ func (p *Prog) observe(tn string, recv string, mem map[string]sv, maps map[strin
 // ---------- state enumeration ----------
 
 type stateSpec struct {
-	name      string
-	choose    func(string) int
-	will      int   // 0 none, 1 will with content
-	bias      int64 // > 0: every string/binary length and every integer argument is this boundary value (clamped to the parameter's type)
-	qos       int64 // > 0: SetQoS is called with this value (3: malformed but constructible)
-	intOnly   bool  // the bias applies to integer arguments only
-	emptyList bool  // the payload list (filters, reason codes) stays empty
-	stretch   int64 // > 0: the user properties added by AddUserProp occupy this many bytes more than the usual two one-byte strings
-	zeroArg   int   // > 0: setters with several parameters get the zero value for parameter number zeroArg (1-based)
-	wide      bool  // C10's wider domain: values that are constructible but outside MQTT's ranges (subscription identifier 0, a packet identifier without QoS, an empty user-property key)
+	name        string
+	choose      func(string) int
+	will        int   // 0 none, 1 will with content
+	bias        int64 // > 0: every string/binary length and every integer argument is this boundary value (clamped to the parameter's type)
+	qos         int64 // > 0: SetQoS is called with this value (3: malformed but constructible)
+	intOnly     bool  // the bias applies to integer arguments only
+	emptyList   bool  // the payload list (filters, reason codes) stays empty
+	willStretch int64 // > 0: the same for the user properties of the will message
+	stretch     int64 // > 0: the user properties added by AddUserProp occupy this many bytes more than the usual two one-byte strings
+	zeroArg     int   // > 0: setters with several parameters get the zero value for parameter number zeroArg (1-based)
+	wide        bool  // C10's wider domain: values that are constructible but outside MQTT's ranges (subscription identifier 0, a packet identifier without QoS, an empty user-property key)
 }
 
 // boundaryValues: the boundary lengths named by the properties' quantifiers (C01: 0, 1, 127, 128, 16 383, 16 384,
